@@ -74,7 +74,7 @@ class Run:
 
     # ------------------------------------------------------------------ Verus
     def weave(self, demote=()):
-        w = weave.Weaver(REPO, os.path.join(VERIF, 'contracts'), os.path.join(VERIF, 'verus/prelude.rs'), demote=demote)
+        w = weave.Weaver(REPO, os.path.join(VERIF, 'contracts'), os.path.join(VERIF, 'verus'), demote=demote)
         text = w.weave()
         out = os.path.join(self.scratch, 'uflow.rs')
         open(out, 'w').write(text)
@@ -153,7 +153,8 @@ class Run:
             fn = self.fn_at(s['line_start'])
             if fn: break
         clause = None; cprops = None
-        for s in spans:
+        cand = prim + [s for s in spans if not s.get('is_primary') and 'failed' in (s.get('label') or '')]
+        for s in cand:
             for ln in range(s['line_start'], s['line_end'] + 1):
                 e = self.lm[ln] if ln < len(self.lm) else None
                 if e and 'clause' in e and e['clause'] != 'prelude':
@@ -174,6 +175,9 @@ class Run:
         fname = f"{fn['file']}::{fn['qual']}" if fn else '<item>'
         if cprops is not None and cprops:
             props = cprops
+        elif fi and clause is None:
+            # implicit safety obligation (overflow, index, unwrap, debug_assert, termination)
+            props = fi.get('implicit') or (['C03'] if 'C03' in (fi['props'] or []) else (fi['props'] or []))
         elif fi:
             props = fi['props'] or []
         elif clause is not None:
@@ -181,7 +185,15 @@ class Run:
         else:
             props = []
         msg = d['message']
-        key = f"{fname}|{msg}|{clause or srctext}"
+        ctext = ''
+        if clause:
+            for s in cand:
+                e2 = self.lm[s['line_start']] if s['line_start'] < len(self.lm) else None
+                if e2 and e2.get('clause') == clause:
+                    t = (s.get('text') or [{}])[0]
+                    ctext = re.sub(r'/\*@.*?\*/', '', t.get('text', '')[max(0, t.get('highlight_start', 1) - 1):]).strip()[:100]
+                    break
+        key = f"{fname}|{msg}|{(clause + ' ' + ctext) if clause else srctext}"
         return {'key': key, 'props': props, 'fn': fname, 'msg': msg, 'clause': clause, 'where': where,
                 'src': srctext, 'rendered': d.get('rendered', '')}
 
